@@ -81,7 +81,8 @@ def guard_program(rng, n, slots=3, cells=2):
     ops = []
     for _ in range(n):
         r = rng.random(); k = rng.randrange(slots); j = rng.randrange(slots); c = rng.randrange(cells)
-        if r < 0.22: ops.append('%s %d %d' % (rng.choice(['hold', 'holdeq']), c, k))
+        if r < 0.20: ops.append('%s %d %d' % (rng.choice(['hold', 'holdeq']), c, k))
+        elif r < 0.26: ops.append('%s %d' % (rng.choice(['repl', 'repl', 'clear']), c))   # the thread itself unlinks and retires (and scans) what a guard may hold
         elif r < 0.32: ops.append('drop %d' % k)
         elif r < 0.46: ops.append('copy %d %d' % (k, j))
         elif r < 0.58: ops.append('move %d %d' % (k, j))
@@ -133,6 +134,15 @@ def run(ctx):
         jobs = []
         for k in range(n):
             jobs.append((cfg, [guard_program(rng, 12)], 'opseq', 1, ctx['seed'] + k, ()))
+        # transfer of protection: after copy / move / swap / self-assignment the DESTINATION protects, whatever happens to the source; the
+        # object is unlinked and retired by the same thread (threshold 0: every retire scans), then reached through the surviving guard
+        for a, b in ((0, 1), (1, 0), (0, 2)):
+            for xfer in ('swap %d %d' % (a, b), 'swap %d %d' % (b, a), 'move %d %d' % (a, b), 'copy %d %d' % (a, b)):
+                for pre in ([], ['repl 1', 'hold 1 %d' % b]):   # second guard taken in a later era / holding another object
+                    prog = ['hold 0 %d' % a] + pre + (['hold 1 %d' % b] if not pre else []) + [xfer, 'drop %d' % a, 'repl 0', 'repl 1', 'deref %d' % b, 'repl 0', 'repl 1', 'deref %d' % b]
+                    jobs.append((cfg, [prog], 'opseq', 1, ctx['seed'], ()))
+                    prog2 = ['hold 0 %d' % a] + pre + (['hold 1 %d' % b] if not pre else []) + [xfer, 'drop %d' % b, 'repl 0', 'repl 1', 'deref %d' % a]
+                    if xfer.startswith('swap') or xfer.startswith('copy'): jobs.append((cfg, [prog2], 'opseq', 1, ctx['seed'], ()))
         for k in range(6 if thorough else 3):
             # snapshot claim under a thread that keeps replacing the source pointer
             jobs.append((cfg, [guard_program(rng, 6), ['repl 0', 'repl 1', 'repl 0', 'clear 1', 'repl 1']], 'random', 300 if thorough else 120, ctx['seed'] + k, ()))
